@@ -46,6 +46,11 @@ Definition skips (p : fparams) (t : ty) (rest : bytes) : Prop :=
   | _ => exists d, default_value p t = Some d /\ pre_field false p t rest = PDone d rest
   end.
 
+Fixpoint all_vals (P : value -> Prop) (vs : vals) : Prop :=
+  match vs with VNil => True | VCons x r => P x /\ all_vals P r end.
+Fixpoint map_vals (f : value -> value) (vs : vals) : vals :=
+  match vs with VNil => VNil | VCons x r => VCons (f x) (map_vals f r) end.
+
 Fixpoint dom (p : fparams) (t : ty) (v : value) {struct t} : Prop :=
   params_ok p /\ (forall bs, make_field p t v = Some bs -> size_ok bs) /\
   if omitted p t v then optional p = true
@@ -58,8 +63,7 @@ Fixpoint dom (p : fparams) (t : ty) (v : value) {struct t} : Prop :=
         sn = false /\ pset p = false /\
         match v with
         | VNull => True
-        | VList vs => (fix all (vs : vals) : Prop :=
-                         match vs with VNil => True | VCons x r => dom no_params e x /\ all r end) vs
+        | VList vs => all_vals (dom no_params e) vs
         | _ => False
         end
     | _ => exists tag, field_tag p t v = Some tag /\ prim_ok p t v tag
@@ -86,8 +90,7 @@ Fixpoint norm (p : fparams) (t : ty) (v : value) {struct t} : value :=
     | TStruct _ fs, VStruct _ vs => VStruct None (norms fs vs)
     | TSlice _ e, VNull => VList VNil
     | TSlice _ e, VList vs =>
-        VList ((fix go (vs : vals) : vals :=
-                  match vs with VNil => VNil | VCons x r => VCons (norm no_params e x) (go r) end) vs)
+        VList (map_vals (norm no_params e) vs)
     | _, _ => v
     end
 with norms (fs : fields) (vs : vals) {struct fs} : vals :=
@@ -255,12 +258,14 @@ Proof.
       injection Htag as <-.
       assert (Hcases : stringType p = TagIA5String \/ stringType p = TagPrintableString \/ stringType p = TagNumericString
                        \/ (stringType p = TagUTF8String /\ utf8_valid s = true)).
-      { apply N.eqb_neq in E0. destruct Hst as [E|[E|[E|[E|E]]]]; try congruence; auto. }
+      { apply N.eqb_neq in E0. destruct Hst as [E|[E|[E|[E|E]]]].
+        - congruence.
+        - right; right; right. split; [exact E | exact (Hu E)].
+        - right; right; left; exact E.
+        - right; left; exact E.
+        - left; exact E. }
       destruct (string_roundtrip _ s body Hcases Hb) as (-> & Hpsr).
-      assert (Hut : (if match ptag p with None => true | Some _ => explicit p end then stringType p
-                     else if negb (stringType p =? 0) then stringType p else TagPrintableString) = stringType p).
-      { rewrite E0. cbn [negb]. destruct (ptag p); [destruct (explicit p)|]; reflexivity. }
-      rewrite Hut, Hpsr. reflexivity.
+      destruct (ptag p); [destruct (explicit p)|]; cbn [negb]; rewrite Hpsr; reflexivity.
   - (* TOid *) now rewrite (oid_roundtrip arcs body Hok Hb).
   - (* TBits VNull *) injection Hb as <-. reflexivity.
   - (* TBits *) injection Hb as <-. now rewrite bits_roundtrip.
@@ -317,4 +322,311 @@ Proof.
                (pre_field_tagged p t tag body rest Hpar Hfit ltac:(lia) Hlen Hraw)).
     rewrite (parse_prim_body p t v tag body _ _ Hp Hpar Hft Hok Eb).
     now rewrite (norm_prim p t v Hp Eo).
+Qed.
+
+(* ------------------------------------------------------------------ omitted, any type *)
+
+Lemma make_field_omitted p t v : omitted p t v = true -> make_field p t v = Some [].
+Proof. intros H. destruct t; cbn [make_field]; now rewrite H. Qed.
+
+Lemma norm_omitted p t v d : omitted p t v = true -> default_value p t = Some d -> norm p t v = d.
+Proof. intros Ho Hd. destruct t; cbn [norm]; rewrite Ho, Hd; reflexivity. Qed.
+
+Lemma omitted_roundtrip p t v bs rest :
+  omitted p t v = true -> optional p = true -> make_field p t v = Some bs -> (bs = [] -> skips p t rest) ->
+  parse_field false p t (bs ++ rest) = Some (norm p t v, rest).
+Proof.
+  intros Ho Hopt Hm Hs. rewrite (make_field_omitted p t v Ho) in Hm. injection Hm as <-. cbn [app].
+  destruct (parse_field_omitted p t rest Hopt (Hs eq_refl)) as (d & Hd & Hpf).
+  now rewrite Hpf, (norm_omitted p t v d Ho Hd).
+Qed.
+
+(* ------------------------------------------------------------------ shape of an encoding that is written *)
+
+Definition enc_shape (p : fparams) (t : ty) (bs : bytes) : Prop :=
+  exists tag body, bs = tag_body p t tag body /\ tag_fits p t tag /\ tag <= 30.
+
+Lemma make_field_struct p fs vs :
+  omitted p (TStruct false fs) (VStruct None vs) = false ->
+  make_field p (TStruct false fs) (VStruct None vs) =
+  match field_tag p (TStruct false fs) (VStruct None vs) with
+  | None => None
+  | Some tag => match make_fields fs vs with
+                | Some body => Some (tag_body p (TStruct false fs) tag body)
+                | None => None
+                end
+  end.
+Proof. intros Ho. cbn [make_field]. rewrite Ho. reflexivity. Qed.
+
+Lemma slice_tag p e v tag :
+  pset p = false -> field_tag p (TSlice false e) v = Some tag -> tag = TagSequence.
+Proof.
+  intros Hs. unfold field_tag. cbn [universal_type].
+  repeat match goal with |- (if ?c then None else _) = _ -> _ => destruct c; [discriminate|] end.
+  change (TagSequence =? TagPrintableString) with false. change (TagSequence =? TagUTCTime) with false. cbv iota.
+  rewrite Hs. congruence.
+Qed.
+
+Lemma make_field_slice p e v :
+  omitted p (TSlice false e) v = false -> pset p = false ->
+  make_field p (TSlice false e) v =
+  match field_tag p (TSlice false e) v with
+  | None => None
+  | Some tag =>
+      match (match v with
+             | VNull => Some []
+             | VList vs => match elems_enc (make_field no_params e) vs with
+                           | Some l => Some (concat l)
+                           | None => None
+                           end
+             | _ => None
+             end) with
+      | Some body => Some (tag_body p (TSlice false e) tag body)
+      | None => None
+      end
+  end.
+Proof.
+  intros Ho Hs. cbn [make_field]. rewrite Ho.
+  destruct (field_tag p (TSlice false e) v) as [tag|] eqn:Eft; [|reflexivity].
+  rewrite (slice_tag p e v tag Hs Eft), Hs. change (TagSequence =? TagSet) with false. cbn [orb].
+  destruct v; try reflexivity.
+Qed.
+
+(* ------------------------------------------------------------------ SEQUENCE OF *)
+
+Lemma params_ok_no_params : params_ok no_params.
+Proof. repeat split; auto. Qed.
+
+Lemma omitted_no_params e x : omitted no_params e x = false.
+Proof. unfold omitted. cbn. now rewrite andb_false_r. Qed.
+
+(* the tag folding of parseSequenceOf maps the encoder's tag to the element type's universal tag *)
+Lemma fold_tag_fits e tag : e <> TRaw -> tag_fits no_params e tag ->
+  let '(_, tag0, _) := universal_type e in
+  (if is_string_tag tag then TagPrintableString
+   else if (tag =? TagGeneralizedTime) || (tag =? TagUTCTime) then TagUTCTime else tag) = tag0.
+Proof.
+  intros Hraw Hf. unfold tag_fits in Hf.
+  destruct e; try congruence; cbn in Hf |- *; try (subst tag; reflexivity).
+  - destruct Hf as (_ & [->|[->|[->| ->]]]); reflexivity.
+  - destruct Hf as (_ & [->| ->]); reflexivity.
+  - subst tag. destruct setname; reflexivity.
+Qed.
+
+(* one element as written with empty parameters *)
+Definition elem_enc (e : ty) (b : bytes) : Prop :=
+  exists tag body, b = elem_bytes no_params e tag body /\ tag_fits no_params e tag /\ tag <= 30
+                   /\ blen (tag_body no_params e tag body) < 2147483648.
+
+Lemma elem_enc_len e b : elem_enc e b -> (2 <= length b)%nat.
+Proof.
+  intros (tag & body & -> & _). unfold elem_bytes. rewrite app_length.
+  pose proof (emit_header_len_ge2 (elem_class no_params) (elem_tag no_params tag) (blen body) (comp_of e)) as H.
+  unfold blen in *. lia.
+Qed.
+
+Lemma count_elems_concat e : e <> TRaw -> forall l, Forall (elem_enc e) l ->
+  forall fuel, (length (concat l) <= fuel)%nat ->
+  count_elems false (universal_type e) fuel (concat l) = Some (length l).
+Proof.
+  intros Hraw l Hl. induction Hl as [|b l Hb Hl IH]; intros fuel Hf.
+  - destruct fuel; reflexivity.
+  - pose proof (elem_enc_len e b Hb) as Hb2.
+    destruct Hb as (tag & body & -> & Hfit & Htag & Hlen).
+    cbn [concat length] in *. rewrite app_length in Hf.
+    destruct fuel as [|fuel]; [lia|].
+    destruct (elem_bytes_cons no_params e tag body (concat l)) as (b0 & r0 & E0).
+    cbn [count_elems]. rewrite E0. rewrite <- E0.
+    rewrite (parse_elem_header no_params e tag body (concat l) params_ok_no_params ltac:(lia) Hlen).
+    pose proof (fold_tag_fits e tag Hraw Hfit) as Hfold.
+    destruct (universal_type e) as [[ma tag0] c] eqn:Eut.
+    assert (Hma : ma = false) by (destruct e; cbn in Eut; inversion Eut; try reflexivity; congruence).
+    subst ma. unfold elem_hdr. cbn [t_class t_tag t_len t_comp].
+    assert (Ecls : elem_class no_params = 0) by reflexivity.
+    assert (Etag : elem_tag no_params tag = tag) by reflexivity.
+    assert (Ecomp : comp_of e = c) by (unfold comp_of; now rewrite Eut).
+    rewrite Ecls, Etag, Ecomp, Hfold. rewrite !N.eqb_refl, Bool.eqb_reflx. cbn [negb orb andb].
+    assert (Elen : (blen (body ++ concat l) <? blen body) = false) by (apply N.ltb_ge; rewrite blen_app; lia).
+    rewrite Elen, (drop_app _ body (concat l) eq_refl).
+    rewrite IH by lia. reflexivity.
+Qed.
+
+Section Slice.
+  Variable e : ty.
+  (* induction hypothesis for the element type *)
+  Hypothesis IHe : forall p v bs rest, dom p e v -> make_field p e v = Some bs -> (bs = [] -> skips p e rest) ->
+                                       parse_field false p e (bs ++ rest) = Some (norm p e v, rest).
+  (* shape of what is written for an element *)
+  Hypothesis Hshape : forall x b, dom no_params e x -> make_field no_params e x = Some b -> e <> TRaw /\ elem_enc e b.
+
+  Lemma elems_roundtrip : forall vs l,
+    all_vals (dom no_params e) vs -> elems_enc (make_field no_params e) vs = Some l ->
+    Forall (elem_enc e) l
+    /\ elems_with (parse_field false no_params e) (length l) (concat l) = Some (map_vals (norm no_params e) vs).
+  Proof.
+    induction vs as [|x r IH]; intros l Hd He; cbn [elems_enc all_vals map_vals] in *.
+    - injection He as <-. split; [constructor|reflexivity].
+    - destruct Hd as (Hx & Hr).
+      destruct (make_field no_params e x) as [b|] eqn:Eb; [|discriminate].
+      destruct (elems_enc (make_field no_params e) r) as [l'|] eqn:El; [|discriminate].
+      injection He as <-.
+      destruct (IH l' Hr eq_refl) as (Hall & Hrec).
+      destruct (Hshape x b Hx Eb) as (Hraw & Henc).
+      split; [now constructor|].
+      cbn [length concat elems_with].
+      rewrite (IHe no_params x b (concat l') Hx Eb).
+      + now rewrite Hrec.
+      + intros ->. apply elem_enc_len in Henc. simpl in Henc. lia.
+  Qed.
+End Slice.
+
+(* ------------------------------------------------------------------ the theorem *)
+
+Scheme ty_mut18 := Induction for ty Sort Prop
+  with fields_mut18 := Induction for fields Sort Prop.
+Combined Scheme ty_fields_ind18 from ty_mut18, fields_mut18.
+
+Definition field_rt (t : ty) : Prop :=
+  forall p v bs rest, dom p t v -> make_field p t v = Some bs -> (bs = [] -> skips p t rest) ->
+                      parse_field false p t (bs ++ rest) = Some (norm p t v, rest).
+Definition fields_rt (fs : fields) : Prop :=
+  forall vs bs, doms fs vs -> make_fields fs vs = Some bs -> parse_fields false fs bs = Some (norms fs vs).
+
+(* what is written for a field that is not omitted has a header the decoder recognises *)
+Lemma make_field_shape p t v bs :
+  dom p t v -> omitted p t v = false -> make_field p t v = Some bs ->
+  t <> TRaw /\ enc_shape p t bs.
+Proof.
+  intros Hd Ho Hm.
+  assert (Hpar : params_ok p) by (destruct t; apply Hd).
+  destruct t.
+  1-9, 11: (split; [discriminate|]; cbn [dom] in Hd; rewrite Ho in Hd; destruct Hd as (_ & _ & tag & Hft & _);
+            rewrite make_field_prim in Hm by (exact I || assumption); rewrite Hft in Hm;
+            destruct (prim_body _ _ v) as [body|]; [|discriminate]; injection Hm as <-;
+            exists tag, body; split; [reflexivity|]; apply (field_tag_fits _ _ v); [assumption|discriminate|assumption]).
+  - (* TRaw *) exfalso. cbn [dom] in Hd. rewrite Ho in Hd. apply Hd.
+  - (* TStruct *)
+    split; [discriminate|]. cbn [dom] in Hd. rewrite Ho in Hd. destruct Hd as (_ & _ & -> & Hv).
+    destruct v as [| | | | | | | | | |raw vs|]; try contradiction. destruct raw; [contradiction|].
+    rewrite make_field_struct in Hm by assumption.
+    destruct (field_tag p (TStruct false fs) (VStruct None vs)) as [tag|] eqn:Hft; [|discriminate].
+    destruct (make_fields fs vs) as [body|]; [|discriminate]. injection Hm as <-.
+    exists tag, body. split; [reflexivity|]. apply (field_tag_fits _ _ (VStruct None vs)); [assumption|discriminate|assumption].
+  - (* TSlice *)
+    split; [discriminate|]. cbn [dom] in Hd. rewrite Ho in Hd. destruct Hd as (_ & _ & -> & Hs & Hv).
+    rewrite make_field_slice in Hm by assumption.
+    destruct (field_tag p (TSlice false t) v) as [tag|] eqn:Hft; [|discriminate].
+    match type of Hm with match ?X with _ => _ end = _ => destruct X as [body|]; [|discriminate] end.
+    injection Hm as <-.
+    exists tag, body. split; [reflexivity|]. apply (field_tag_fits _ _ v); [assumption|discriminate|assumption].
+Qed.
+
+Lemma dom_size p t v bs : dom p t v -> make_field p t v = Some bs -> size_ok bs.
+Proof. intros Hd. destruct t; apply Hd. Qed.
+
+Lemma dom_params p t v : dom p t v -> params_ok p.
+Proof. intros Hd. destruct t; apply Hd. Qed.
+
+Lemma elem_shape e x b : dom no_params e x -> make_field no_params e x = Some b -> e <> TRaw /\ elem_enc e b.
+Proof.
+  intros Hd Hm.
+  destruct (make_field_shape no_params e x b Hd (omitted_no_params e x) Hm) as (Hraw & tag & body & -> & Hfit & Htag).
+  split; [assumption|]. exists tag, body.
+  rewrite tag_body_plain by (now left). repeat split; try assumption.
+  pose proof (dom_size _ _ _ _ Hd Hm) as Hs. unfold size_ok in Hs.
+  now rewrite tag_body_plain in Hs by (now left).
+Qed.
+
+Theorem roundtrip_all : (forall t, field_rt t) /\ (forall fs, fields_rt fs).
+Proof.
+  apply ty_fields_ind18; unfold field_rt, fields_rt.
+  1-9, 11: (intros; apply prim_roundtrip; [exact I|assumption..]).
+  - (* TRaw: only the omitted case is in the domain *)
+    intros p v bs rest Hd Hm Hs. cbn [dom] in Hd. destruct Hd as (Hpar & Hsz & Hd).
+    destruct (omitted p TRaw v) eqn:Ho; [|contradiction].
+    now apply omitted_roundtrip.
+  - (* TStruct *)
+    intros raw0 fs IHfs p v bs rest Hd Hm Hs.
+    destruct (omitted p (TStruct raw0 fs) v) eqn:Ho.
+    { apply omitted_roundtrip; try assumption. cbn [dom] in Hd. rewrite Ho in Hd. apply Hd. }
+    destruct (make_field_shape _ _ _ _ Hd Ho Hm) as (Hraw & tag & body & Hbs & Hfit & Htag).
+    pose proof (dom_size _ _ _ _ Hd Hm) as Hsize. pose proof (dom_params _ _ _ Hd) as Hpar.
+    cbn [dom] in Hd. rewrite Ho in Hd. destruct Hd as (_ & _ & -> & Hv).
+    destruct v as [| | | | | | | | | |raw vs|]; try contradiction. destruct raw; [contradiction|].
+    rewrite make_field_struct in Hm by assumption.
+    destruct (field_tag p (TStruct false fs) (VStruct None vs)) as [tag'|] eqn:Hft; [|discriminate].
+    destruct (make_fields fs vs) as [body'|] eqn:Emf; [|discriminate]. injection Hm as <-.
+    unfold size_ok in Hsize.
+    destruct (field_tag_fits _ _ _ _ Hpar Hraw Hft) as (Hfit' & Htag').
+    cbn [parse_field].
+    rewrite (pre_field_tagged p (TStruct false fs) tag' body' rest Hpar Hfit' ltac:(lia) Hsize Hraw).
+    rewrite (IHfs vs body' Hv Emf).
+    cbn [norm]. rewrite Ho. reflexivity.
+  - (* TSlice *)
+    intros sn e IHe p v bs rest Hd Hm Hs.
+    destruct (omitted p (TSlice sn e) v) eqn:Ho.
+    { apply omitted_roundtrip; try assumption. cbn [dom] in Hd. rewrite Ho in Hd. apply Hd. }
+    pose proof (dom_size _ _ _ _ Hd Hm) as Hsize. pose proof (dom_params _ _ _ Hd) as Hpar.
+    cbn [dom] in Hd. rewrite Ho in Hd. destruct Hd as (_ & _ & -> & Hps & Hv).
+    rewrite make_field_slice in Hm by assumption.
+    destruct (field_tag p (TSlice false e) v) as [tag|] eqn:Hft; [|discriminate].
+    assert (Hraw : TSlice false e <> TRaw) by discriminate.
+    destruct (field_tag_fits _ _ _ _ Hpar Hraw Hft) as (Hfit & Htag).
+    unfold size_ok in Hsize.
+    destruct v as [| | | | | | | | | | |vs]; try contradiction.
+    + (* nil slice: an empty SEQUENCE *)
+      injection Hm as <-. cbn [parse_field].
+      rewrite (pre_field_tagged p (TSlice false e) tag [] rest Hpar Hfit ltac:(lia) Hsize Hraw).
+      cbn [length count_elems elems_with]. destruct (universal_type e) as [[? ?] ?]. cbn [count_elems].
+      cbn [norm]. rewrite Ho. reflexivity.
+    + destruct (elems_enc (make_field no_params e) vs) as [l|] eqn:El; [|discriminate]. injection Hm as <-.
+      destruct (elems_roundtrip e IHe (elem_shape e) vs l Hv El) as (Hall & Hrec).
+      cbn [parse_field].
+      rewrite (pre_field_tagged p (TSlice false e) tag (concat l) rest Hpar Hfit ltac:(lia) Hsize Hraw).
+      destruct l as [|b l'].
+      * cbn [concat length]. destruct (universal_type e) as [[? ?] ?]. cbn [count_elems].
+        cbn [length concat] in Hrec. rewrite Hrec. cbn [norm]. rewrite Ho. reflexivity.
+      * assert (Hraw' : e <> TRaw).
+        { destruct vs as [|x r]; [cbn in El; discriminate|]. cbn [all_vals] in Hv. destruct Hv as (Hx & _).
+          cbn [elems_enc] in El. destruct (make_field no_params e x) as [bx|] eqn:Ebx; [|discriminate].
+          apply (elem_shape e x bx Hx Ebx). }
+        rewrite (count_elems_concat e Hraw' (b :: l') Hall _ (le_n _)).
+        rewrite Hrec. cbn [norm]. rewrite Ho. reflexivity.
+  - (* FNil *)
+    intros vs bs Hd Hm. destruct vs; [|contradiction]. reflexivity.
+  - (* FCons *)
+    intros p t IHt fs IHfs vs bs Hd Hm.
+    destruct vs as [|v vr]; [contradiction|]. cbn [doms make_fields parse_fields norms] in *.
+    destruct Hd as (Hdv & Hdr & Hskip).
+    destruct (make_field p t v) as [a|] eqn:Ea; [|discriminate].
+    destruct (make_fields fs vr) as [b|] eqn:Eb; [|discriminate]. injection Hm as <-.
+    rewrite (IHt p v a b Hdv Ea).
+    + now rewrite (IHfs vr b Hdr Eb).
+    + intros ->. destruct (omitted p t v) eqn:Ho.
+      * now apply Hskip.
+      * exfalso. destruct (make_field_shape _ _ _ _ Hdv Ho Ea) as (_ & tag & body & Hbs & _).
+        pose proof (dom_params _ _ _ Hdv) as Hpar.
+        assert (Hne : tag_body p t tag body <> []).
+        { destruct (ptag p) as [pt|] eqn:Ep.
+          - destruct (explicit p) eqn:Ee.
+            + rewrite (tag_body_explicit p t tag body pt Ep Ee).
+              destruct (emit_header_cons (if application p then 1 else if private p then 3 else 2) pt
+                          (blen body + blen (emit_header 0 tag (blen body) (comp_of t))) true) as (x & y & E).
+              rewrite E. discriminate.
+            + rewrite tag_body_plain by (now right). unfold elem_bytes.
+              destruct (emit_header_cons (elem_class p) (elem_tag p tag) (blen body) (comp_of t)) as (x & y & E).
+              rewrite E. discriminate.
+          - rewrite tag_body_plain by (now left). unfold elem_bytes.
+            destruct (emit_header_cons (elem_class p) (elem_tag p tag) (blen body) (comp_of t)) as (x & y & E).
+            rewrite E. discriminate. }
+        congruence.
+Qed.
+
+(* strict Unmarshal of Marshal's output consumes every byte and returns the normal form of the value *)
+Theorem unmarshal_marshal : forall p t v bs,
+  dom p t v -> marshal p t v = Some bs -> unmarshal false p t bs = Some (norm p t v, 0).
+Proof.
+  intros p t v bs Hd Hm. unfold unmarshal, marshal in *.
+  pose proof (proj1 roundtrip_all t p v bs [] Hd Hm (fun _ => I)) as H.
+  rewrite app_nil_r in H. now rewrite H.
 Qed.
